@@ -168,33 +168,6 @@ def r5(repo, res):
             ok = bool(cs) and all(len(c.args) == 2 and ast.unparse(c.args[1]) == "self.names" for c in cs)
             res.ob("C05.R5", g, cs[0] if cs else g, ok, expected="names go through escape_name(name, self.names)",
                    found=ast.unparse(cs[0]) if cs else "no escape_name call", key=f"escaped:{cls}.{meth}")
-    # read-back tables keyed by model.varName(v); prefix tests select one family
-    for ref in ("cn::solve_cn_model", "major::solve_major_model"):
-        g = repo.func(ref)
-        lk = [n for n in walk_local(g) if isinstance(n, ast.Assign) and isinstance(n.targets[0], ast.Name) and isinstance(n.value, (ast.DictComp, ast.Dict))
-              and any(isinstance(c_, ast.Call) and isinstance(c_.func, ast.Attribute) and c_.func.attr == "varName" for c_ in ast.walk(n.value))]
-        ok = bool(lk)
-        keys = []
-        if lk:
-            for d in ast.walk(lk[0].value):
-                if isinstance(d, ast.DictComp):
-                    keys.append(ast.unparse(d.key))
-            ok = bool(keys) and all(".varName(" in k for k in keys)
-        res.ob("C05.R5", g, lk[0] if lk else g, ok, expected="solution names are mapped back through model.varName(v)",
-               found=str(keys), key=f"readback:{ref}")
-    g = repo.func("major::solve_major_model")
-    fams = Families(g)
-    prefixes = sorted({p for n in list(fams.containers) + list(fams.scalars) for p in fams.prefix_of(n)})
-    tests = [c for c in ast.walk(g) if isinstance(c, ast.Call) and isinstance(c.func, ast.Attribute)
-             and c.func.attr == "startswith" and c.args and isinstance(c.args[0], ast.Constant)]
-    res.floor("C05.R5", "prefix tests in the major read-out", len(tests), 2)
-    for t in tests:
-        p = t.args[0].value
-        hit = [q for q in prefixes if q.startswith(p) or p.startswith(q) and q]
-        binfam = [n for n in fams.containers if any(i["prefix"] == p and i["vtype"] == "B" for i in fams.containers[n]["infos"])]
-        ok = len(hit) == 1 and len(binfam) == 1
-        res.ob("C05.R5", g, t, ok, expected=f"prefix {p!r} selects exactly one binary family",
-               found=f"families with that prefix: {hit}", key=f"prefix:{p}")
 
 
 def r6(repo, res):
@@ -448,8 +421,6 @@ MUTANTS = [
          old="                and abs(1 - var.ub()) < SOLUTION_PRECISION", new="                and True"),
     dict(name="R5 names not uniquified", module="lpinterface", expect="C05.R5",
          old='        name = escape_name(kwargs.get("name", ""), self.names)', new='        name = escape_name(kwargs.get("name", ""))'),
-    dict(name="R5 read-back keyed by raw name", module="major", expect="C05.R5",
-         old="        **{model.varName(v): a for a, v in VA.items()},", new='        **{f"A_{a[0]}_{a[1]}": a for a, v in VA.items()},'),
     # benign
     dict(name="benign: abssum constraints rewritten", module="lpinterface", kind="benign",
          old='            self.addConstr(absvar + v >= 0, name=f"CABSL_{i}")', new='            self.addConstr(absvar >= -v, name=f"CABSL_{i}")'),
